@@ -2,7 +2,7 @@
     Only ExtrOcamlBasic is used: Z, positive, nat stay the extracted inductives. *)
 Require Extraction.
 Require Import ExtrOcamlBasic.
-From IsoTp Require Import Model.Layer Spec.Segment.
+From IsoTp Require Import Model.Layer Model.Sock Spec.Segment Spec.Kernel.
 
 Extraction Language OCaml.
 Separate Extraction
@@ -13,4 +13,6 @@ Separate Extraction
   Address.addr_validate Address.is_for_me Address.tx_arb_id Address.rx_arb_id
   Address.tx_prefix Address.rx_prefix_size Address.tx_ext_byte Address.rx_ext_byte
   Pdu.pdu_decode Frames.make_tx_msg Frames.make_flow_control
-  Segment.seg Segment.spec_frame.
+  Segment.seg Segment.spec_frame
+  Sock.wsock0 Sock.w_set_opts Sock.w_set_fc_opts Sock.w_set_ll_opts Sock.w_bind Sock.w_send Sock.w_recv Sock.w_close
+  Kernel.kinit Kernel.kapply Kernel.kernel_tx_id Kernel.kernel_tx_prefix Kernel.kernel_accepts Kernel.kernel_rx_byte.
